@@ -6,6 +6,7 @@ def text_edit(old, new):
         return src.replace(old, new, 1) if old in src else None
     return edit
 MUTANTS = [
+    Mutant('relock_on_mode_difference', 'src/pharmpy/internals/fs/lock.py', text_edit("(is_held_shared and not shared and not is_windows)", "(is_held_shared != shared and not is_windows)"), 'L12', 'downgrade while exclusively held'),
     Mutant('downgrade_with_acquire_args', 'src/pharmpy/internals/fs/lock.py', text_edit("_process_level_lock(self._fd, shared=True, blocking=True)", "_process_level_lock(self._fd, shared, blocking)"), 'L10', 'downgrade re-locks exclusively'),
     Mutant('caller_opens_lock_file', 'src/pharmpy/workflows/model_database/local_directory.py', text_edit("        path = self.path / FILE_LOCK\n        path.touch(exist_ok=True)\n        return path_lock(str(path), shared=True)", "        path = self.path / FILE_LOCK\n        with open(path, 'a'):\n            pass\n        return path_lock(str(path), shared=True)"), 'L11', 'second descriptor on the lock file'),
     Mutant('drop_release_sh_entry', F, edit_node('ShareableThreadLock._lock_sh', stmt_containing('self._condition.release()'), to_pass, 0),
